@@ -214,3 +214,31 @@ func copyLogged(dst, src []value) int {
 	}
 	return copy(dst, src)
 }
+
+
+const maxAllocElems = 1 << 22  // concrete allocations above this are outside the memory bound of the executor
+const maxSymAllocElems = 64    // a symbolic allocation size is explored for 0..64 elements
+
+// boundAlloc applies the executor's memory bound to an allocation size (property C05 excludes inputs sized
+// beyond the stated memory bound): negative sizes panic as in Go, symbolic sizes are restricted to 0..64 (each
+// explored), concrete sizes above 4M elements end the path as outside the bound.
+func boundAlloc(n value) {
+	if s, ok := n.(*sym); ok {
+		if X.IntMode {
+			return
+		}
+		w := kindWidth(s.k)
+		if kindSigned(s.k) {
+			if X.Guard(smt.BVSlt(s.t, smt.BVConst(0, w))) {
+				panic(runtimeErr("makeslice: len out of range"))
+			}
+		}
+		X.stub("symbolic allocation size restricted to 0..64 elements")
+		X.Assume(symBool(smt.BVUle(s.t, smt.BVConst(maxSymAllocElems, w))))
+		return
+	}
+	if v := asInt64(n); v > maxAllocElems {
+		X.stub("allocation larger than 4M elements: outside the executor's memory bound")
+		panic(pathEnd{endAssumeFalse, "allocation beyond the memory bound"})
+	}
+}
